@@ -322,6 +322,20 @@ def lattice_mesh(kind, atm=0):
             geo = m.mulgrid().rectangular([10.0, 30.0, 10.0, 10.0], [10.0, 20.0, 10.0], [10.0, 20.0], atmos_type=atm)
         elif kind == "poly":
             geo = poly_mesh(m, atm)
+        elif kind == "trap":
+            # four quadrilaterals that are not parallelograms: a 2x2 mesh whose centre node sits at (12.5, 7.5)
+            geo = m.mulgrid(convention=0, atmos_type=atm)
+            xy = [(0, 0), (10, 0), (20, 0), (0, 10), (12.5, 7.5), (20, 10), (0, 20), (10, 20), (20, 20)]
+            for k, (x, y) in enumerate(xy):
+                geo.add_node(m.node(geo.node_name_from_number(k + 1), np.array([float(x), float(y)])))
+            nl = geo.nodelist
+            for k, quad in enumerate([(0, 1, 4, 3), (1, 2, 5, 4), (3, 4, 7, 6), (4, 5, 8, 7)]):
+                geo.add_column(m.column(geo.column_name_from_number(k + 1), [nl[i] for i in quad]))
+            for con in geo.missing_connections:
+                geo.add_connection(con)
+            geo.identify_neighbours()
+            geo.add_layers([10.0, 20.0], 0.0)
+            geo.set_default_surface()
         elif kind == "4x3":
             geo = m.mulgrid().rectangular([10.0] * 4, [10.0] * 3, [10.0, 20.0], atmos_type=atm)
         elif kind == "mixed":
@@ -419,8 +433,8 @@ def op_alphabet(geo, rng, rich):
         ops.append({"op": "set_surface", "args": [rng.choice(names), int(round(lay.bottom / H)) + rng.choice([0, 1, -1])]})
     ls = [l.name for l in geo.layerlist[1:]]
     if ls and len(geo.layerlist) < 12:
-        ops.append({"op": "refine_layers", "args": [[rng.choice(ls)], rng.choice([2, 4])]})
-        ops.append({"op": "refine_layers", "args": [ls, 2]})
+        ops.append({"op": "refine_layers", "args": [[rng.choice(ls)], rng.choice([2, 3, 4])]})
+        ops.append({"op": "refine_layers", "args": [ls, rng.choice([2, 3])]})
     free_l = [n for n in (" 9", " 8", " 7") if n not in geo.layer]
     if free_l and geo.layerlist:
         ops.append({"op": "rename_layer", "args": [geo.layerlist[0].name, free_l[0]]})           # the atmosphere layer
@@ -434,9 +448,27 @@ def op_alphabet(geo, rng, rich):
     return ops
 
 
+def totals(geo):
+    """Plan area and rock volume of a geometry, from the node coordinates (shoelace, relative to a vertex) and from the
+    column areas the library caches (the ones fromgeo and mulgrid.area use); a leaf for states off the lattice."""
+    ga = ca = gv = cv = 0.0
+    worst = 0.0
+    bottom = geo.layerlist[-1].bottom
+    for c in geo.columnlist:
+        pts = [n.pos - c.node[0].pos for n in c.node]
+        a = 0.5 * abs(sum(pts[i][0] * pts[(i + 1) % len(pts)][1] - pts[(i + 1) % len(pts)][0] * pts[i][1] for i in range(len(pts))))
+        ga += a
+        ca += c.area
+        depth = c.surface - bottom
+        gv += a * depth
+        cv += c.area * depth
+        worst = max(worst, abs(c.area - a) / max(a, 1e-300))
+    return {"area": ga, "cached_area": ca, "volume": gv, "cached_volume": cv, "worst_cached_area_error": worst}
+
+
 def record(ad, ops_seq):
     """Applies a sequence of operations, recording the projected state after each."""
-    tr = [{"act": {"op": "init", "args": []}, "state": ad.project(), "names_ok": ad.names_current()}]
+    tr = [{"act": {"op": "init", "args": []}, "state": ad.project(), "names_ok": ad.names_current(), "totals": totals(ad.geo)}]
     for a in ops_seq:
         a = dict(a)
         try:
@@ -444,5 +476,5 @@ def record(ad, ops_seq):
         except Exception as e:
             tr.append({"act": a, "state": ad.project(), "error": repr(e), "names_ok": True})
             break
-        tr.append({"act": a, "state": ad.project(), "names_ok": ad.names_current()})
+        tr.append({"act": a, "state": ad.project(), "names_ok": ad.names_current(), "totals": totals(ad.geo)})
     return tr
